@@ -51,6 +51,11 @@ def tool_versions():
     return v
 
 
+# library sources a spec TU does not #include itself but needs at link time
+NATIVE_EXTRA = {'s_vector.c': ['array.c', 'memory.c', 'common.c'], 's_string.c': ['array.c', 'memory.c', 'common.c'],
+                's_heap.c': [], 's_map.c': []}
+
+
 def native_replay(g, inputs, workdir):
     """Compile the spec TU natively (-DVF_NATIVE) against /repo's real sources and run the
     harness on the extracted inputs.  Returns dict(cmd, reproduced, observation)."""
@@ -61,7 +66,8 @@ def native_replay(g, inputs, workdir):
           '-fno-omit-frame-pointer',
           '-DVF_NATIVE', '-D_GNU_SOURCE', '-I', os.path.join(REPO, 'src'), '-I', os.path.join(REPO, 'include'),
           '-I', os.path.join(VERIF, 'spec')] + g.defines + \
-         [os.path.join(VERIF, g.spec), os.path.join(VERIF, 'replay', 'native_main.c'), '-o', exe, '-lm']
+         [os.path.join(VERIF, g.spec), os.path.join(VERIF, 'replay', 'native_main.c')] + \
+         [os.path.join(REPO, 'src', f) for f in NATIVE_EXTRA.get(os.path.basename(g.spec), [])] + ['-o', exe, '-lm']
     p = subprocess.run(cc, stdout=subprocess.PIPE, stderr=subprocess.STDOUT)
     if p.returncode != 0:
         return {'cmd': ' '.join(cc), 'reproduced': False,
